@@ -279,6 +279,7 @@ Record evid := mkEvid {
   e_id : N;          (* identity of the evidence bytes *)
   e_known : bool;    (* Type = "doublesignv5" and the payload decodes *)
   e_nsigns : N;
+  e_differ : bool;   (* some signature is for a hash different from the first one *)
   e_round : N
 }.
 
@@ -304,10 +305,13 @@ Section Evidences.
     a_st : St; a_seen : list N; a_conf : list evid; a_pend : list evid; a_logs : list lg
   }.
 
-  (* processDoubleSignV5 *)
+  (* processDoubleSignV5.  An evidence that reaches doPenalize is always
+     confirmed (doPenalize changes the state even for a zero amount); only the
+     log depends on the amount. *)
   Definition ev_step (m : memo) (parent max_expired : N) (a : eacc) (e : evid) : eacc :=
     if negb (e_known e) then a
     else if (e_nsigns e <? 2)%N then a
+    else if negb (e_differ e) then a
     else if (e_round e =? parent)%N then
       match signer_of m e with
       | None => a
@@ -316,9 +320,8 @@ Section Evidences.
         else if negb (val_exists (a_st a) s) then a
         else
           let '(st', total, l) := penalize (a_st a) s in
-          if 0 <? total
-          then mkEacc st' (s :: a_seen a) (a_conf a ++ [e]) (a_pend a) (a_logs a ++ [l])
-          else mkEacc st' (s :: a_seen a) (a_conf a) (a_pend a) (a_logs a)
+          mkEacc st' (s :: a_seen a) (a_conf a ++ [e]) (a_pend a)
+                 (if 0 <? total then a_logs a ++ [l] else a_logs a)
       end
     else if (parent <? e_round e)%N then mkEacc (a_st a) (a_seen a) (a_conf a) (a_pend a ++ [e]) (a_logs a)
     else if (parent - e_round e <=? max_expired)%N
@@ -328,29 +331,14 @@ Section Evidences.
   Definition process_evidences (m : memo) (parent max_expired : N) (st : St) (evs : list evid) : eacc :=
     fold_left (ev_step m parent max_expired) evs (mkEacc st [] [] [] []).
 
-  (* builder: slashing().  parent = s.blockChain.CurrentHeader().Number;
-     slash data = confirmed evidences; the pool keeps the pending ones *)
-  Definition slashing (m : memo) (head max_expired : N) (st : St) (pool : list evid) :=
-    process_evidences m head max_expired st pool.
-
-  (* validator: replaySlashing().  The evidences are the decoded slash data; the
-     "parent height" is ctx.chain.CurrentHeader().Number of the executing node *)
-  Definition replay_slashing (m : memo) (head max_expired : N) (st : St) (slash_data : list evid) :=
-    process_evidences m head max_expired st slash_data.
-
-  (* the class of the open finding: an evidence reaches doPenalize with a zero total *)
-  Definition zero_penalty_step (m : memo) (parent : N) (a : eacc) (e : evid) : bool :=
-    e_known e && negb (e_nsigns e <? 2)%N && (e_round e =? parent)%N &&
-    match signer_of m e with
-    | None => false
-    | Some s => negb (existsb (N.eqb s) (a_seen a)) && val_exists (a_st a) s &&
-                negb (0 <? snd (fst (penalize (a_st a) s)))
-    end.
-  Fixpoint has_zero_penalty (m : memo) (parent max_expired : N) (a : eacc) (evs : list evid) : bool :=
-    match evs with
-    | [] => false
-    | e :: r => zero_penalty_step m parent a e || has_zero_penalty m parent max_expired (ev_step m parent max_expired a e) r
-    end.
+  (* builder: slashing() and validator: replaySlashing().  Both judge the
+     evidences against the height of the block's own parent (header.Number - 1);
+     the builder processes its pool and writes the confirmed evidences into the
+     slash data, the validator processes the decoded slash data *)
+  Definition slashing (m : memo) (number max_expired : N) (st : St) (pool : list evid) :=
+    process_evidences m (number - 1)%N max_expired st pool.
+  Definition replay_slashing (m : memo) (number max_expired : N) (st : St) (slash_data : list evid) :=
+    process_evidences m (number - 1)%N max_expired st slash_data.
 End Evidences.
 
 (* ===================================================================== *)
@@ -461,8 +449,7 @@ Section Blocks.
   Definition build_block (sc : sched) (m : memo) (st0 : St) (number coinbase : N)
              (candidates : list tx) (pool : list evid) : outcome built :=
     let a := fold_left (build_step coinbase) candidates (mkTxacc st0 0 0 [] []) in
-    (* the builder's chain head is the parent: number - 1 *)
-    let ea := slashing St lg resolve val_exists penalize m (number - 1)%N max_expired (t_st a) pool in
+    let ea := slashing St lg resolve val_exists penalize m number max_expired (t_st a) pool in
     match end_rest sc (a_st _ _ ea) number coinbase (t_rew a) (t_txs a) with
     | Crash => Crash
     | Done (st3, endlogs, subsidy) =>
@@ -474,15 +461,15 @@ Section Blocks.
 
   Inductive verdict := Accepted (st : St) (recs : list (receipt lg)) | Rejected | Crashed.
 
-  (* StateProcessor.Process + BlockValidator.ValidateState on a node whose
-     current header has number `head` *)
-  Definition process_block (sc : sched) (m : memo) (head : N) (st0 : St) (h : header tx) : verdict :=
+  (* StateProcessor.Process + BlockValidator.ValidateState (wherever the local
+     chain head is: nothing on this path reads it) *)
+  Definition process_block (sc : sched) (m : memo) (st0 : St) (h : header tx) : verdict :=
     match fold_left (process_step (h_coinbase h)) (h_txs h) (Some (mkTxacc st0 0 0 [] [])) with
     | None => Rejected
     | Some a =>
       if negb (t_rew a =? h_gas_rewards h) then Rejected
       else
-        let ea := replay_slashing St lg resolve val_exists penalize m head max_expired (t_st a) (h_slash h) in
+        let ea := replay_slashing St lg resolve val_exists penalize m (h_number h) max_expired (t_st a) (h_slash h) in
         match end_rest sc (a_st _ _ ea) (h_number h) (h_coinbase h) (h_gas_rewards h) (h_txs h) with
         | Crash => Crashed
         | Done (st3, endlogs, _) =>
@@ -506,7 +493,7 @@ Definition role_of_N (n : N) : role :=
 
 (* observed evidence: descriptor + what the builder did with it *)
 Record ev_case := mkEvCase {
-  ec_known : bool; ec_nsigns : N; ec_round : N;
+  ec_known : bool; ec_nsigns : N; ec_differ : bool; ec_round : N;
   ec_signer : option N;        (* independent re-verification by the harness *)
   ec_exists : bool;            (* signer is a validator of the parent state *)
   ec_penalty_pos : bool;       (* floor(token * fraction / 100) > 0 in the parent state *)
@@ -557,7 +544,7 @@ Fixpoint blist_eqb (a b : list bool) : bool :=
 Fixpoint evs_of (i : N) (l : list ev_case) : list evid :=
   match l with
   | [] => []
-  | c :: r => mkEvid i (ec_known c) (ec_nsigns c) (ec_round c) :: evs_of (i + 1) r
+  | c :: r => mkEvid i (ec_known c) (ec_nsigns c) (ec_differ c) (ec_round c) :: evs_of (i + 1) r
   end.
 Fixpoint nth_case (l : list ev_case) (i : N) : option ev_case :=
   match l with
